@@ -20,7 +20,7 @@ The model's atomic steps are exactly these sections:
                                   not hand ownership over in normal mode) – the hand-off window
   * try inner        (`try`)      `nameLock.TryLock()`: never blocks
   * give back        (`drop`)     a FAILED `TryLock` takes `Locker.mu` again, `waiters--`, deletes the
-                                  entry at 0 (since the `fix:` commit FIXL; before it – variant
+                                  entry at 0 (since the `fix:` commit 114f7bfc; before it – variant
                                   `leakyTry` – the reference was never given back and the entry
                                   stayed in the map for ever: ghost field `leaked`)
   * release + drop   (`unlock`)   under `Locker.mu`: look the entry up BY NAME (`ErrNoSuchLock`
@@ -37,7 +37,7 @@ The grant policy of Go's writer-preferring RWMutex only removes interleavings; i
 driver engine (`Driver/LockerEngine.lean`) to predict the scripted episodes, not by the theorems.
 
 `Variant.ofTree` is the one-line switch that says which variant the tree has (the driver engine runs
-it).  `Variant.leakyTry` is the code before FIXL.  `Variant.tryRefOnCreate` is the variant "TryLock takes a reference only when it creates the
+it).  `Variant.leakyTry` is the code before 114f7bfc.  `Variant.tryRefOnCreate` is the variant "TryLock takes a reference only when it creates the
 entry and tries the inner mutex inside the `Locker.mu` section" (a plausible repair of the
 reference leak of a failed TryLock); `Props/C16Locker.lean` shows by a three-party schedule that
 it breaks the invariant.
@@ -87,13 +87,13 @@ def Phase.uses (o : Nat) (p : Phase) : Bool := p.obj == some o
 inductive Variant
   /-- the code as it is: a failed TryLock gives its reference back -/
   | current
-  /-- the code before the `fix:` commit FIXL: a failed TryLock keeps its reference for ever -/
+  /-- the code before the `fix:` commit 114f7bfc: a failed TryLock keeps its reference for ever -/
   | leakyTry
   /-- TryLock: `inc` only when the entry is created, `nameLock.TryLock()` inside the section -/
   | tryRefOnCreate
   deriving DecidableEq, Repr
 
-/-- THE SWITCH: the variant the tree has (`.leakyTry` before the `fix:` commit FIXL) -/
+/-- THE SWITCH: the variant the tree has (`.leakyTry` before the `fix:` commit 114f7bfc) -/
 def Variant.ofTree : Variant := .current
 
 structure State where
